@@ -121,12 +121,20 @@ var uniSlots = []uint64{1, 2, 3}
 
 // readState canonicalises everything a StateReader answers on the universe. lastUpd lists the
 // ContractStorageLastUpdatedBlock answers separately (their comparison has its own class).
+// lightState: long histories on the legacy backend (every historical read through the memory
+// database's indexed batch copies the whole database): one address, two slots
+var lightState bool
+
 func readState(sr core.StateReader) (vals []string, lastUpd []string) {
-	for _, a := range uniAddrs {
+	addrs, slots := uniAddrs, uniSlots
+	if lightState {
+		addrs, slots = uniAddrs[:1], uniSlots[:2]
+	}
+	for _, a := range addrs {
 		af := F(a)
 		vals = append(vals, fmt.Sprintf("ch[%d]=%s", a, res(sr.ContractClassHash(af))))
 		vals = append(vals, fmt.Sprintf("nonce[%d]=%s", a, res(sr.ContractNonce(af))))
-		for _, s := range uniSlots {
+		for _, s := range slots {
 			vals = append(vals, fmt.Sprintf("st[%d,%d]=%s", a, s, res(sr.ContractStorage(af, F(s)))))
 			lastUpd = append(lastUpd, fmt.Sprintf("lu[%d,%d]=%s", a, s,
 				res(sr.ContractStorageLastUpdatedBlock((*felt.Address)(af), F(s)))))
@@ -172,9 +180,18 @@ func clip(s string) string {
 	return s
 }
 
-// events of blocks [from, head] as canonical strings, or the error kind
-func observeEvents(bc *blockchain.Blockchain, from, head uint64) string {
-	f, err := bc.EventFilter(nil, nil, func() (blockchain.PreConfirmedReader, error) { return nil, nil })
+// events of blocks [from, to] matching (addr, key) as canonical strings, or the error kind.
+// addr = 0: any address; key = 0: any key.
+func observeEventsF(bc *blockchain.Blockchain, from, to, addr, key uint64) string {
+	var addrs []felt.Address
+	var keys [][]felt.Felt
+	if addr != 0 {
+		addrs = []felt.Address{felt.Address(*F(addr))}
+	}
+	if key != 0 {
+		keys = [][]felt.Felt{{*F(key)}}
+	}
+	f, err := bc.EventFilter(addrs, keys, func() (blockchain.PreConfirmedReader, error) { return nil, nil })
 	if err != nil {
 		return kind(err)
 	}
@@ -182,7 +199,7 @@ func observeEvents(bc *blockchain.Blockchain, from, head uint64) string {
 	if err := f.SetRangeEndBlockByNumber(blockchain.EventFilterFrom, from); err != nil {
 		return kind(err)
 	}
-	if err := f.SetRangeEndBlockByNumber(blockchain.EventFilterTo, head); err != nil {
+	if err := f.SetRangeEndBlockByNumber(blockchain.EventFilterTo, to); err != nil {
 		return kind(err)
 	}
 	evs, _, err := f.Events(nil, 1<<20)
@@ -190,9 +207,13 @@ func observeEvents(bc *blockchain.Blockchain, from, head uint64) string {
 		return kind(err)
 	}
 	var sb strings.Builder
-	sb.WriteString("ok:")
+	fmt.Fprintf(&sb, "ok:%d:", len(evs))
 	for _, e := range evs {
-		fmt.Fprintf(&sb, "%d/%d/%s;", e.BlockNumber, e.TransactionIndex, e.TransactionHash)
+		fmt.Fprintf(&sb, "%d/%d/%d/%s;", e.BlockNumber, e.TransactionIndex, e.EventIndex, e.TransactionHash)
 	}
 	return sb.String()
+}
+
+func observeEvents(bc *blockchain.Blockchain, from, head uint64) string {
+	return observeEventsF(bc, from, head, 0, 0)
 }
